@@ -127,9 +127,9 @@ theorem getMiscut_setMiscut (k s : V3 ℝ) (t : ℝ) (hk : V3.norm k = 1) (hs : 
     simp only [a1, a2, a3, Bool.false_eq_true, if_false]
   have ha : PyOps.pyAcos (Real.cos t) = .ok t := by
     unfold PyOps.pyAcos
-    have : Scalar.le (Scalar.abs (Real.cos t)) (Scalar.one : ℝ) = true := by
-      simp only [rs_le, rs_abs, rs_one, decide_eq_true_eq]; exact hcos1
-    simp only [this, if_true, rs_acos]
+    have : Scalar.lt (Scalar.one : ℝ) (Scalar.abs (Real.cos t)) = false := by
+      simp only [rs_lt, rs_abs, rs_one, decide_eq_false_iff_not, not_lt]; exact hcos1
+    simp only [this, Bool.false_eq_true, if_false, rs_acos]
     rw [Real.arccos_cos ht0.le ht1.le]
   simp only [hb, ha, bind, Except.bind, pure, Except.pure]
   congr 2
